@@ -74,6 +74,8 @@ pub struct WireState {
 	pub peer_silent: bool,
 	/// 0-based index of the `send` that never completes (and all later ones).
 	pub hang_send_at: Option<usize>,
+	/// delivered to `receive()` as soon as a send hangs
+	pub after_hang: Option<InItem>,
 }
 
 #[derive(Debug, Clone)]
@@ -86,6 +88,9 @@ pub enum Fault {
 	Silence,
 	/// The peer stops reading: the next `send` (and all later ones) never completes.
 	SendHang,
+	/// Two things go wrong at once: the next `send` never completes, and while it hangs the receiving side comes up
+	/// with this item (an error, or something that makes the client give the connection up).
+	SendHangThenRecv(InItem),
 }
 
 impl WireState {
@@ -103,6 +108,10 @@ impl WireState {
 					}
 					Fault::SendHang => {
 						self.hang_send_at = Some(self.send_count);
+					}
+					Fault::SendHangThenRecv(item) => {
+						self.hang_send_at = Some(self.send_count);
+						self.after_hang = Some(item);
 					}
 					Fault::Silence => {
 						rt::probe("fault.peer_silent");
@@ -234,6 +243,11 @@ impl TransportSenderT for Tx {
 			if hangs {
 				rt::event("fault-send-hangs", "");
 				rt::probe("fault.send_hangs");
+				let second = wire.lock().after_hang.take();
+				if let Some(item) = second {
+					rt::probe("fault.receive_side_fails_while_send_hangs");
+					wire.push(item);
+				}
 				std::future::pending::<()>().await;
 			}
 			{
